@@ -14,7 +14,7 @@ import re
 from collections.abc import AsyncIterator, Callable
 from contextlib import asynccontextmanager
 from datetime import date, datetime
-from email import message_from_string
+from email import message_from_bytes
 from email.message import EmailMessage
 from enum import Enum, StrEnum
 from typing import (
@@ -868,8 +868,12 @@ class IMAPClientCommand:
         #
         if self._p_simple_string("{", silent=True, swallow=False) is None:
             raise BadSyntax("the message of APPEND must be a literal")
-        self.message = message_from_string(
-            self._p_string(), policy=email.policy.SMTP
+        # The command text is the octets the client sent, read as latin-1:
+        # the message is parsed from those octets (a message parsed from the
+        # text can not be written out again if it has 8-bit characters.)
+        #
+        self.message = message_from_bytes(
+            self._p_string().encode("latin-1"), policy=email.policy.SMTP
         )
         # XXX Remove this after we are sure our MHMessage -> EmailMessage
         #     conversion.
